@@ -320,7 +320,24 @@ fn extra_programs(work: &Path) -> Vec<(String, PathBuf)> {
     let ir2 = json!({"version": 1, "errors": [], "types": cyc, "services": [{"serviceName": t("Graphs", "com.graph"), "endpoints": eps}], "extensions": {}});
     let p2 = work.join("cycles-with-back-edge-doubles.json");
     std::fs::write(&p2, serde_json::to_vec(&ir2).unwrap()).unwrap();
-    vec![("multi-package".to_string(), p), ("cycles-with-back-edge-doubles".to_string(), p2)]
+    // (3) package components that are not identifiers (path separators, dot-dot, an absolute
+    //     path, upper case, spaces): whatever the generator makes of them, it stays beneath the
+    //     output directory
+    let esc = work.join("escape-target");
+    let pkgs = [format!("com.example.{}/abs", esc.display()), "com.example.a/../../../../escape-rel".to_string(), "com.example.a b".to_string(), "com.example.A-B".to_string(), "com.example./".to_string()];
+    let hostile: Vec<Value> = pkgs
+        .iter()
+        .enumerate()
+        .map(|(i, pkg)| json!({"type": "object", "object": {"typeName": t(&format!("Foo{}", i), pkg), "fields": [{"fieldName": "a", "type": s}]}}))
+        .collect();
+    let mut out = vec![("multi-package".to_string(), p), ("cycles-with-back-edge-doubles".to_string(), p2)];
+    for (i, ty) in hostile.into_iter().enumerate() {
+        let ir3 = json!({"version": 1, "errors": [], "types": [ty], "services": [], "extensions": {}});
+        let p3 = work.join(format!("odd-package-{}.json", i));
+        std::fs::write(&p3, serde_json::to_vec(&ir3).unwrap()).unwrap();
+        out.push((format!("odd-package-name-{}", i), p3));
+    }
+    out
 }
 
 pub fn run(args: &Args) -> Report {
@@ -382,6 +399,12 @@ pub fn run(args: &Args) -> Report {
                     if !run.ok {
                         // generation failure is C03's business; both entries and all seeds must agree on it
                         r.outcome("generation-failed");
+                        // ... but even a failing generation may only touch the output directory
+                        if let Some(outside) = &outside {
+                            if !outside.is_empty() {
+                                r.violation(format!("C20|{}|writes-outside-output-directory|{}", pname, entry), format!("{} [{}] via {} (generation failed: {}): created/wrote {:?} outside the requested output directory", pname, cfg.text(), entry, run.stderr.chars().take(120).collect::<String>(), &outside[..outside.len().min(3)]), case.clone());
+                            }
+                        }
                         if reference.as_ref().map(|x| !x.1.is_empty()).unwrap_or(false) {
                             r.violation(format!("C20|{}|fails-only-sometimes", pname), format!("{} [{}] failed under {} seed {} but succeeded elsewhere: {}", pname, cfg.text(), entry, seed, run.stderr), case);
                         }
